@@ -299,6 +299,13 @@ def c07_params(budget):
                     yield {'twin': twin, 'maxdata': md, 'size': size, 'path': path, 'mtime': 0 if size % 2 else 1234567, 'cb': size % 3, 'src': 'bytesio'}
         for src in ('file', 'dir'):
             yield {'twin': twin, 'maxdata': 4096, 'size': 5000, 'path': '/sdcard/dest', 'mtime': 77, 'cb': 1, 'src': src}
+        # the caller's st_mode reaches the SEND record unchanged, for files and for every file of a directory
+        for src in ('bytesio', 'file', 'dir'):
+            for mode in (0o644, 0o600, 0o40755, 0o100755):
+                yield {'twin': twin, 'maxdata': 4096, 'size': 3000, 'path': '/sdcard/m', 'mtime': 5, 'cb': 0, 'src': src, 'st_mode': mode}
+        # a stream that is not at position 0: the bytes from the current position are the content, with or without a callback
+        for cbk in (0, 1):
+            yield {'twin': twin, 'maxdata': 4096, 'size': 9000, 'path': '/sdcard/s', 'mtime': 5, 'cb': cbk, 'src': 'bytesio', 'seek': 1234}
 
 
 def c07_run(p):
@@ -317,12 +324,17 @@ def c07_run(p):
     kw = {'mtime': p['mtime']}
     if p['cb']:
         kw['progress_callback'] = cb
+    if 'st_mode' in p:
+        kw['st_mode'] = p['st_mode']
     expect = {}
     tmp = None
     cwd = os.getcwd()
     try:
         if p['src'] == 'bytesio':
             src = BytesIO(content)
+            if p.get('seek'):
+                src.seek(p['seek'])
+                content = content[p['seek']:]
             expect[p['path'].encode()] = content
         else:
             tmp = tempfile.mkdtemp(prefix='simpush_', dir='/tmp')
@@ -357,7 +369,9 @@ def c07_run(p):
             out.append(fail(p, 'file never arrived on the device', path, sorted(dev.pushed)))
         elif got['data'] != data:
             out.append(fail(p, 'device file content differs from the source (%d vs %d bytes)' % (len(got['data']), len(data))))
-        elif got['mode'] != b'%d' % 0o100644 and got['mode'] != str(33272).encode():
+        elif 'st_mode' in p and got['mode'] != b'%d' % p['st_mode']:
+            out.append(fail(p, "SEND carries the caller's st_mode unchanged", p['st_mode'], got['mode']))
+        elif 'st_mode' not in p and got['mode'] != b'%d' % 0o100644 and got['mode'] != str(33272).encode():
             out.append(fail(p, 'SEND mode field', 33272, got['mode']))
         elif p['mtime'] and got['mtime'] != p['mtime']:
             out.append(fail(p, 'DONE carries the given mtime', p['mtime'], got['mtime']))
@@ -558,12 +572,55 @@ def c11_params(budget):
                 for stall in ('raise', 'empty', 'chatter'):
                     yield {'twin': twin, 'tt': tt, 'rt': rt, 'total': total, 'point': point, 'stall': stall}
         yield {'twin': twin, 'tt': 0.5, 'rt': 1.0, 'total': None, 'point': 'sync', 'stall': 'raise'}
+        # the device's CLSE arrives after the whole-command limit although every single read was in time: it must still be answered
+        yield {'twin': twin, 'tt': 0.5, 'rt': 1.0, 'total': 1.0, 'point': 'late-close', 'stall': 'empty'}
+        # a whole-command limit of 0 is a limit, not "no limit"
+        yield {'twin': twin, 'tt': 0.5, 'rt': 1.0, 'total': 0, 'point': 'zero-limit', 'stall': 'empty'}
+        yield {'twin': twin, 'tt': 0.5, 'rt': 1.0, 'total': 0.0, 'point': 'zero-limit', 'stall': 'empty'}
         # the device never confirms the host's CLSE of a sync stream but keeps writing on that very stream
         for op in ('stat', 'list'):
             yield {'twin': twin, 'tt': 0.5, 'rt': 1.0, 'total': None, 'point': 'sync-close', 'stall': 'own-stream', 'op': op}
 
 
+def c11_special(p):
+    out = []
+    if p['point'] == 'late-close':
+        dev = adbd.Adbd(shell=lambda cmd: [b'slow output'])
+        h = Host(dev, p['twin'], stall='empty')
+        h.call('connect', transport_timeout_s=0.5, read_timeout_s=1.0)
+        orig = dev.send
+
+        def send(cmd, a0, a1, data=b''):
+            if cmd == b'WRTE':
+                dev.timers.append((h.clock.now + 0.6, lambda: orig(cmd, a0, a1, data)))
+            elif cmd == b'CLSE' and a1 in dev.streams and not dev.streams[a1].closed_by_host:
+                dev.timers.append((h.clock.now + 0.65, lambda: orig(cmd, a0, a1, data)))
+            else:
+                orig(cmd, a0, a1, data)
+        dev.send = send
+        r = outcome(lambda: h.call('shell', 'x', transport_timeout_s=p['tt'], read_timeout_s=p['rt'], timeout_s=p['total'], decode=False))
+        closes = [x for x in dev.log if x[0] == b'CLSE']
+        if len(closes) != 1:
+            out.append(fail(p, 'C04: a device CLOSE that the host consumed must be answered with exactly one CLOSE, also near the whole-command limit', 1, (len(closes), r)))
+        out += monitor_failures(p, h)
+        h.finish()
+        return out
+    # zero-limit: the device keeps producing output and never closes; timeout_s = 0 must stop the command after the first packet
+    dev = adbd.Adbd(shell=lambda cmd: [b'chunk'] * 400)
+    h = Host(dev, p['twin'], stall='empty')
+    h.call('connect', transport_timeout_s=0.5, read_timeout_s=1.0)
+    r = outcome(lambda: h.call('shell', 'x', transport_timeout_s=p['tt'], read_timeout_s=p['rt'], timeout_s=p['total'], decode=False))
+    nw = len([x for x in dev.log if x[0] == b'OKAY'])
+    if r[:2] != ('exc', 'AdbTimeoutError') or nw > 3:
+        out.append(fail(p, 'timeout_s = 0 is a whole-command limit: the command must fail with AdbTimeoutError after the first packet', 'AdbTimeoutError',
+                        (r[:2], 'acknowledged %d packets' % nw)))
+    h.finish()
+    return out
+
+
 def c11_run(p):
+    if p['point'] in ('late-close', 'zero-limit'):
+        return c11_special(p)
     out = []
     n = {'open': 0, 'data': 1, 'close': 2}.get(p['point'], 0)
     dev = adbd.Adbd(shell=lambda cmd: [b'one', b'two'])
@@ -650,9 +707,41 @@ def c13_params(budget):
         for seq in ([], ['ok', 'close'], ['fail']):
             yield {'twin': twin, 'seq': seq, 'op': 'pull-deep'}
         yield {'twin': twin, 'seq': ['ok'], 'op': 'pull-deep', 'empty_path': True}
+        for then in ('close', 'fail'):
+            yield {'twin': twin, 'seq': ['ok'], 'op': 'late-generator', 'then': then}
+
+
+def c13_late_generator(p):
+    """streaming_shell() called while connected, but consumed only after close() / a failed connect(): the guard applies when it runs."""
+    out = []
+    dev = adbd.Adbd(shell=lambda c: [b'x'])
+    h = Host(dev, p['twin'])
+    h.call('connect', transport_timeout_s=0.2, read_timeout_s=0.5)
+    g = h.d.streaming_shell('x')
+    if p['then'] == 'close':
+        h.call('close')
+    else:
+        h.core.fault_at = {h.core.calls + 1}
+        outcome(lambda: h.call('connect', transport_timeout_s=0.2, read_timeout_s=0.5))
+        h.core.fault_at = None
+    nw = len(h.core.written)
+    if p['twin'] == 'sync':
+        r = outcome(lambda: list(g))
+    else:
+        async def consume():
+            return [x async for x in g]
+        r = outcome(lambda: h.loop.run_until_complete(consume()))
+    if r[:2] != ('exc', 'AdbConnectionError'):
+        out.append(fail(p, 'an operation that runs while the device is not connected must raise AdbConnectionError', 'AdbConnectionError', r))
+    if len(h.core.written) != nw:
+        out.append(fail(p, 'not a single byte may be written to the transport', 0, len(h.core.written) - nw))
+    h.finish()
+    return out
 
 
 def c13_run(p):
+    if p.get('op') == 'late-generator':
+        return c13_late_generator(p)
     out = []
     dev = adbd.Adbd(shell=lambda c: [b'x'], stats={b'/p': (1, 2, 3)}, dirs={b'/p': []}, fs={b'/p': b'data'})
     h = Host(dev, p['twin'])
@@ -959,7 +1048,8 @@ def c16_params(budget):
             if p.get('twin') != 'sync':
                 continue
             seen += 1
-            if budget == 'quick' and name not in ('C12', 'C15') and seen % (4 if name in ('C01', 'C08', 'C09', 'C10', 'C07') else 3):
+            if budget == 'quick' and name not in ('C12', 'C15') and p.get('point') not in ('late-close', 'zero-limit', 'sync-close') \
+                    and seen % (4 if name in ('C01', 'C08', 'C09', 'C10', 'C07') else 3):
                 continue
             yield {'of': name, 'p': p}
 
@@ -1007,7 +1097,7 @@ PROPS = {
 }
 PROPS['C16'] = (c16_params, c16_run)
 # C04's monitor runs inside the scenarios of these properties
-ALSO = {'C04': ['C01', 'C07', 'C08', 'C09', 'C10'], 'C02': ['C01', 'C07'], 'C06': ['C01', 'C19'], 'C14': ['C06'], 'C16': ['C18']}
+ALSO = {'C04': ['C01', 'C07', 'C08', 'C09', 'C10', 'C11'], 'C02': ['C01', 'C07'], 'C06': ['C01', 'C19'], 'C14': ['C06'], 'C16': ['C18']}
 
 
 from sim import scenarios_ext      # noqa: E402,F401  (registers C17, C18, C20)
